@@ -436,6 +436,13 @@ func (p *Element) Neg(p1 *Element) *Element {
 
 // ScalarMul sets p to p1*s.
 func (p *Element) ScalarMul(p1 *Element, scalarMont *fr.Element) *Element {
+	// The points with x = 0 are the two representatives of the identity, and
+	// s * identity = identity. They must not reach the GLV multiplication: its
+	// endomorphism maps them to (·, 0, 0), which is not a point.
+	if p1.inner.X.IsZero() {
+		return p.SetIdentity()
+	}
+
 	var bigScalar big.Int
 	scalarMont.ToBigIntRegular(&bigScalar)
 	p.inner.ScalarMultiplication(&p1.inner, &bigScalar)
